@@ -914,7 +914,8 @@ func runC13(c *ctx) {
 	c.res.Rule = "pure helpers: boundary + random bit matrices / GF(2^128) vectors / scalars on the lattice {0,1,2,q-1,q-2,2^k,random}; " +
 		"real OT runs: batch sizes x choice patterns (all-0, all-1, alternating, random) x nonces on shared setups; " +
 		"alterations: one field of one message per run; concurrent: G goroutines x k honest multiplications over one shared setup / over " +
-		"their own setups, Doerner signing sessions side by side; non-trivial = input not all zero; distinct by printed parameters"
+		"their own setups, Doerner signing sessions side by side; aliasing: every layer with inputs that are sub-slices of larger buffers " +
+		"(consecutive rows of one choice matrix / nonce buffer, spare capacity, guard bytes), messages in transport buffers, shared scalar objects; non-trivial = input not all zero; distinct by printed parameters"
 	old := crand.Reader
 	rd := &c13Reader{}
 	rd.seed(c.res.Rng.Int63())
@@ -988,4 +989,6 @@ func runC13(c *ctx) {
 	c.c13SetupAlterAll(rd, r, pick(1, 4))
 	// executions overlapping in one process (c13_conc.go)
 	c.c13ConcAll(rd, r)
+	// caller-owned inputs: rows of one choice matrix, transport buffers, shared scalar objects (c13_alias.go)
+	c.c13AliasAll(rd, r)
 }
